@@ -260,6 +260,7 @@ pub fn render(toks: &[Tok], t: &mut Tape) -> (String, usize) {
 }
 
 fn lex(text: &str) -> Result<Vec<String>, String> {
+    crate::engine::note_current("lex", text);
     match std::panic::catch_unwind(|| verif::tokens(text)) {
         Ok(v) => Ok(v),
         Err(p) => Err(format!("panic: {}", crate::engine::classify_unwind(p).render())),
@@ -293,6 +294,7 @@ fn check_string(raw: &str) -> Result<(), (String, String, String)> {
         return Err((format!("string-token:{c}"), format!("{expect:?}"), got));
     }
     let want = format!("[Expr(String {{ value: {:?} }})]", decode_raw(raw));
+    crate::engine::note_current("parse", &text);
     let got = match std::panic::catch_unwind(|| nederlang::parser::parse(&text)) {
         Ok(Ok(t)) => format!("{t:?}"),
         Ok(Err(e)) => format!("parse error: {e:?}"),
@@ -306,6 +308,7 @@ fn check_string(raw: &str) -> Result<(), (String, String, String)> {
 
 /// texts in which something is not a token: evaluation must not silently ignore the rest
 fn check_nodrop(text: &str) -> Result<(), String> {
+    crate::engine::note_current("parse", text);
     match std::panic::catch_unwind(|| nederlang::parser::parse(text)) {
         Ok(Ok(t)) => Err(format!("accepted as {t:?}")),
         Ok(Err(_)) => Ok(()),
